@@ -21,7 +21,7 @@ def instances(tier):
 
 
 CHECK = dict(
-    id='C11', pkgs=['liteclient'], init_pkgs=['std:io'], instances=instances, opts={'budget_s': 1200},
+    id='C11', pkgs=['liteclient'], init_pkgs=['std:io'], instances=instances, opts={'budget_s': 1200, 'hash_injective': True},
     level_text='Packet.marshal/size/hash/MagicType and ParsePacket executed symbolically for all payload and nonce contents at the stated payload lengths: exact frame layout, marshal/parse round trip through arbitrary continuous key streams, stream continuity across two packets, rejection of every single-byte corruption (position >= 4) and every truncation, rejection of every length field outside 64..8MiB.',
     level_note='SHA-256 is an ideal hash (uninterpreted function with collision freedom); the stream cipher is an arbitrary XOR key stream supplied by the harness (cipher.Stream interface). Handshake key derivation, AES-CTR itself, X25519, bufio and dialing are outside this check (see outside_claim).',
     bounds={'quick': {'payload bytes': [0, 1, 4, 61]}, 'thorough': {'payload bytes': [0, 1, 2, 3, 4, 5, 31, 32, 33, 61, 64, 128, 256]}},
